@@ -182,6 +182,12 @@ def builtin_expressions() -> List[str]:
         out += [f"pow({base}, {e})", f"pow({base}, {e}) + 1"]
     for args in ("a, 0, 10, 0.0, 5.0", "a, -7, 9, 0, 255", "b, 0, 8, 0, 3", "a * 0.5, 0, 1, 10, 20", "512, 0, 1023, 0.0, 5.0", "a, 9, -7, 0, 100", "a + b, -14, 18, -1.0, 1.0", "a, 0, 3, b, -b - 1"):
         out += [f"map({args})", f"map({args}) * 2", f"int(map({args}))", f"round(map({args}))"]
+    # list comprehensions over range(start, stop, step): ascending, descending, spans that are not a multiple of the step
+    for rng in ("range(10, 0, -3)", "range(9, 0, -3)", "range(0, 10, 4)", "range(0, 9, 3)", "range(abs(a) + 2, 0, -3)", "range(abs(a) + 9, 1, -4)", "range(0, abs(b) + 5, 4)", "range(9, -1, -4)", "range(-3, 8, 5)",
+                "range(2, 2)", "range(5, 2)", "range(2, 5, -1)", "range(abs(b), abs(a) + abs(b) + 1, 2)", "range(7, 0, -7)", "range(7, 0, -8)", "range(1, 8)"):
+        out += [f"len([i for i in {rng}])", f"len([i * 2 for i in {rng}]) + 1"]
+        if rng not in ("range(2, 2)", "range(5, 2)", "range(2, 5, -1)"):  # (an index into an empty list raises in Python: not a well-defined script)
+            out += [f"[i + 1 for i in {rng}][-1]", f"[i for i in {rng}][0]"]
     # truth of strings and lists; string comparisons with the literal on either side
     out += ["1 if sp else 2", "1 if se else 2", "bool(sp)", "bool(se)", "not sp", "not se", "bool(lq)", "1 if lq else 0", "not lq", "(a < b) and sp == \"p\"", "\"p\" == sp", "\"a\" < sp", "sp < \"q\"", "sp != se",
             "\"p\" != sp", "\"q\" > sp", "sp == \"p\" == sp", "(1 if sp else 2) + (3 if lq else 4)", "bool(str(a))", "not str()", "1 if (sp and a) else 0", "1 if (se or lq) else 0", "bool(sp) + bool(se) + bool(lq)",
@@ -383,6 +389,14 @@ def _k_blocks(depth: int, in_loop: bool, tier: str) -> Iterator[List[str]]:
         yield [f"for i{depth} in range(3):", "    try:", f"        if i{depth} == 0:", "            w = x", "    except:", "        pass", "    mon.write(w)"]
         yield [f"for i{depth} in range(3):", f"    if i{depth} >= 0:", f"        if i{depth} == 0:", "            w = 7", "        mon.write(w)"]
         yield [f"k{depth} = 0", f"while k{depth} < 3:", f"    k{depth} += 1", f"    if k{depth} > 0:", f"        for j{depth} in range(2):", f"            if j{depth} + k{depth} == 1:", "                w = y", "    mon.write(w)"]
+    # a variable first bound INSIDE a block to the default value of its type (0, 0.0, False, "") and changed afterwards:
+    # the binding is executed again every time the block is entered
+    if depth >= 1:
+        for v, zero, grow in (("w", "0", "w = w + x + 1"), ("wf", "0.0", "wf = wf + 0.5"), ("wb", "False", "wb = wb or x > -99"), ("ws", '""', 'ws = ws + "p"')):
+            yield [f"for i{depth} in range(3):", f"    {v} = {zero}", f"    {grow}", f"    mon.write({v})"]
+            yield [f"k{depth} = 0", f"while k{depth} < 3:", f"    k{depth} += 1", f"    {v} = {zero}", f"    for j{depth} in range(k{depth}):", f"        {grow}", f"    mon.write({v})"]
+            yield ["if x < y or x >= y:", f"    {v} = {zero}", f"    {grow}", f"    mon.write({v})"]
+            yield [f"for i{depth} in range(2):", "    try:", f"        {v} = {zero}", f"        {grow}", "    except:", "        pass", f"    mon.write({v})"]
     for tmpl in K_LOOPVAR:
         lv = [ln.replace("{d}", str(depth)) for ln in tmpl]
         yield [f"for i{depth} in range(3):"] + common.indent(lv + [f"mon.write(i{depth})"])
@@ -481,6 +495,25 @@ F_CALLS = [
     (["noisy"], ["k = 0", "while k < noisy(1):", "    k += 1"]),
     (["noisy"], ["sleep(noisy(3))"]),
     (["noisy", "add"], ["x = add(noisy(a), noisy(b))"]),
+    # chained comparisons: each operand evaluated at most once, and not at all after a link that is false
+    (["noisy"], ["if noisy(a) < noisy(b) < noisy(2):", "    x = 0"]),
+    (["noisy"], ["x = 5 < noisy(1) < noisy(9)"]),
+    (["noisy"], ["mon.write(noisy(a) < noisy(b) <= noisy(a) < noisy(7))"]),
+    (["noisy"], ["y = 0 < noisy(a) < noisy(b)", "x = noisy(b) > noisy(a) > noisy(-9) > noisy(-8)"]),
+    (["noisy"], ["k = 0", "while 0 < noisy(k) < 3:", "    k += 1"]),
+    # and / or: the right operand only when the left one does not decide
+    (["noisy"], ["x = noisy(a) and noisy(b)"]),
+    (["noisy"], ["x = noisy(a) or noisy(b)"]),
+    (["noisy"], ["if a > 0 and noisy(1) > 0 or noisy(2) > 5:", "    x = 1"]),
+    (["noisy"], ["x = (noisy(a) or noisy(7)) + (noisy(b) and noisy(8))"]),
+    # expression statements whose only effect sits deep inside them
+    (["noisy"], ["x > 2 and (y > 2 or noisy(1))"]),
+    (["noisy"], ["a > 3 and not noisy(a)"]),
+    (["noisy"], ["(noisy(3) + 1) * 2"]),
+    (["noisy"], ["x > 1 and noisy(x) > 0"]),
+    (["noisy"], ["noisy(1)", "-noisy(2)", "noisy(3) if a > 0 else noisy(4)"]),
+    (["noisy"], ["abs(min(noisy(5), 2))", "not (noisy(6) > 3)"]),
+    (["noisy", "add"], ["add(1, add(noisy(a), 2))", "add(noisy(1), noisy(2)) > 2 or noisy(9)"]),
     (["bump2"], ["bump2()", "mon.write(x)", "bump2()"]),
     (["bump3"], ["mon.write(bump3(a))"]),
     (["bump4", "bump2"], ["bump4()", "bump2()"]),
